@@ -162,4 +162,7 @@ def run(chk: Check, model):
     chk.rule("C01.buffer", "payload lookup: the compiled runtime reads each window entry's payload at the same ring index the producer wrote it to (see C08.map)")
     rule_map(chk, model, cv, "C01.buffer")
     rule_sizes(chk, model, "C01.buffer")
+    # which recorded episode / partition the replay executes: the requested index, clipped to the number of episodes / partitions
+    from .c09 import rule_clip
+    rule_clip(chk, model, "C01.order", cv)
     rule_exec_order(chk, model, "C01.order", cv)
